@@ -137,7 +137,7 @@ func checkC05(r *verdict.Run) {
 		"plus churn sequences of 600-1800 steps over three long-lived sets and 31 members (SADD/SREM cycles, repeated add/remove of one member, algebra and STORE forms in between) so that table growth, shrinking and ageing precede the algebra commands. " +
 		"distinct = (command+options, prior key class, outcome class)"
 	runDiffSequences(r, tierPick(r, 300, 6000), func(rng *rand.Rand) int { return 30 + rng.Intn(50) },
-		[]string{"s0", "s1", "s2", "s3", "ws", "wl", "km"}, [][]string{{"SET", "ws", "str"}, {"RPUSH", "wl", "a"}, {"SADD", "s0", "a", "b", "c"}, {"SADD", "s1", "b", "c", "d"}}, c05Gen)
+		[]string{"s0", "s1", "s2", "s3", "ws", "wl", "wh", "km"}, [][]string{{"SET", "ws", "str"}, {"RPUSH", "wl", "a"}, {"HSET", "wh", "a", "1", "b", "2"}, {"SADD", "s0", "a", "b", "c"}, {"SADD", "s1", "b", "c", "d"}}, c05Gen)
 	// churn: few long sequences (the structure's history matters, not the number of fresh starts)
 	runDiffSequencesN(r, tierPick(r, 32, 320), 2, 10000, func(rng *rand.Rand) int { return 600 + rng.Intn(1200) },
 		[]string{"c0", "c1", "c2", "cd"}, [][]string{{"SADD", "c0", "apple", "banana", "cherry", "date", "elderberry", "fig", "grape", "honeydew", "kiwi"}, {"SADD", "c1", "banana", "kiwi", "m1"}}, c05ChurnGen)
